@@ -691,10 +691,11 @@ func extractMethodHTTPInfo(service *protogen.Service, method *protogen.Method) m
 			methodPath = methodConfig.Path
 			// Shared annotations return UPPERCASE methods; OpenAPI requires lowercase
 			httpMethod = strings.ToLower(methodConfig.Method)
-			pathParams = methodConfig.PathParams
 		}
 
 		path = annotations.BuildHTTPPath(servicePath, methodPath)
+		// Variables of the service base path belong to the template as well
+		pathParams = annotations.ExtractPathParams(path)
 	} else {
 		path = fmt.Sprintf("/%s/%s", service.Desc.Name(), method.Desc.Name())
 	}
